@@ -21,6 +21,7 @@ import Scico.Proofs.JaxprScope
 import Scico.Proofs.JaxprLocal
 import Scico.Proofs.JaxprArray
 import Scico.Proofs.JaxprFamily
+import Scico.Proofs.JaxprKind
 import Mathlib.LinearAlgebra.Pi
 import Mathlib.LinearAlgebra.Matrix.ToLin
 import Mathlib.LinearAlgebra.Matrix.DotProduct
@@ -252,6 +253,16 @@ theorem C06_family_programs_linear (nl : ℕ → List Arr.Vc → Arr.Vc) (F : Fa
     fun h => run_antiC' (R := ℝ) (Fam.famInterp_sound nl F) p h,
     fun h => (run_const (R := ℝ) (K := ℂ) (Fam.famInterp_sound nl F) p true h).2 rfl⟩
 
+/-- **The dispatch of the operator calculus is sound** (round 5).  `combineKind` is the model of which class scico
+    gives to `A + B`, `A - B`, `A(B)`, `A @ B` (a `LinearOperator` only when both operands are; tied on every run for
+    every LinearOperator class with arithmetic of its own - generated table - against non-linear operands, stream 10).
+    If each operand keeps the promise of its presentation (`KindOK`: presented linear ⇒ linear map), the sum and the
+    composition keep the promise of the presentation `combineKind` assigns. -/
+theorem C06_calculus_kind_sound {K : Type} [CommSemiring K] {n : Nat} (ka kb : OpKind)
+    (f g : (Fin n → K) → (Fin n → K)) (hf : KindOK ka f) (hg : KindOK kb g) :
+    KindOK (combineKind ka kb) (fun x => f x + g x) ∧ KindOK (combineKind ka kb) (fun x => f (g x)) :=
+  combineKind_sound ka kb f g hf hg
+
 /-! ### Non-vacuity: a concrete interpretation satisfying every hypothesis, accepted programs that
     compute what they should, rejected programs that really are not linear. -/
 
@@ -336,6 +347,12 @@ example (nl) (x : Fin 1 → Arr.Vc) (j) (i : ℕ) :
     run (Fam.famInterp nl Fam.exTables) Fam.exProg x j i = (starRingEnd ℂ) (3 * x 0 i / 2) := Fam.exProg_run nl x j i
 example (nl) : IsLinearMap ℝ (run (Fam.famInterp nl Fam.exTables) Fam.exProgRe) :=
   (C06_family_programs_linear nl Fam.exTables Fam.exProgRe).2.1 (by decide)
+
+-- dispatch rule: linear with non-linear is presented non-linear (both orders), linear with linear stays linear; the rule
+-- is necessary: identity + |.| on R^1 is not a linear map, so presenting it as a LinearOperator would be a violation
+example : combineKind .linear .nonlinear = .nonlinear ∧ combineKind .nonlinear .linear = .nonlinear ∧
+    combineKind .linear .linear = .linear := by decide
+example : ¬ IsLinearMap ℝ (fun x : Fin 1 → ℝ => x + fun i => |x i|) := abs_sum_not_linear
 
 -- the calculus: with f = (2·), g = (3·), h = (5·) on ℂ¹ the four derived maps are linear (hypotheses satisfiable)
 example : IsLinearMap ℂ (fun x : Fin 1 → ℂ => star ((2 : ℂ) • star x)) :=
